@@ -5,7 +5,7 @@ import numpy as np
 
 from .metrics_table import T
 
-GCLASSES = ("G1", "G2", "G3", "G4", "G5", "G6", "G7")
+GCLASSES = ("G1", "G2", "G3", "G4", "G5", "G6", "G7", "G7S")
 LABEL_PATTERNS = ("random", "blob", "alternate", "singleton", "all_distinct")
 
 # metrics that are symmetric, non-negative and zero-self on their domain: usable as OPF arc weights
